@@ -10,7 +10,8 @@ _lib = {}
 def plan(tier, seed):
     alt = spaces.label_choices(seed, 1)[0]
     if tier == 'quick':
-        blocks = [dict(n=3, m=2, labels='ints', schemes='all'), dict(n=3, m=3, labels='ints', schemes='six_t', per=60),
+        blocks = [dict(n=3, m=2, labels='ints', schemes='all', histories=True), dict(n=3, m=3, labels='ints', schemes='six_t7', per=60),
+                  dict(n=4, m=2, labels='ints', schemes='one', per=100, histories=True),
                   dict(n=4, m=2, labels='ints', schemes='two_t', per=100), dict(n=3, m=2, labels=alt, schemes='four')]
         cons_n = [1, 2, 3, 4]
     else:
@@ -60,18 +61,19 @@ def robust_cascade_needed(groups, table):
     return cascade, [tuple(sorted(p)) for p in part]
 
 
-def check_partition(ctx, ds, lname, n, s):
+def check_partition(ctx, ds, lname, n, s, dataset_obj=None, origin=None):
     from ..lib import mk_dataset, mk_scheme, labels_for, Back
     labels = labels_for(lname, n)
     universe = spaces.universe_of(ds)
     back = Back(labels, universe)
-    case = {'cfg': {}, 'kind': 'partition', 'dataset': ds, 'labels': lname, 'n': n, 'scheme': s}
+    case = {'cfg': {}, 'kind': 'partition', 'dataset': ds, 'labels': lname, 'n': n, 'scheme': s,
+            'mutated_in_place_from': origin}
     harness.mark(case)
     ctx.evals += 2
     try:
         with watchdog(30):
-            pf = _lib['OP'].parfront_partition(mk_dataset(ds, labels), mk_scheme(s))
-            pc = _lib['OP'].parcons_partition(mk_dataset(ds, labels), mk_scheme(s))
+            pf = _lib['OP'].parfront_partition(dataset_obj if dataset_obj is not None else mk_dataset(ds, labels), mk_scheme(s))
+            pc = _lib['OP'].parcons_partition(dataset_obj if dataset_obj is not None else mk_dataset(ds, labels), mk_scheme(s))
             front = abstract_groups(pf.partition, back)
             weak = abstract_groups(pc.partition, back)
     except CaseTimeout:
@@ -121,11 +123,30 @@ def check_partition(ctx, ds, lname, n, s):
     ctx.outcome((tuple(front), tuple(weak)))
 
 
+HIST_SCHEMES = [spaces.UNIFYING, spaces.B5LTT5, spaces.EXTENDED]
+
+
+def histories(ctx, ds0, lname, n):
+    """partition -> mutate the dataset object in place -> partition again on the SAME object."""
+    from ..lib import labels_for, mutation_histories, prepare_mutated, mk_scheme
+    labels = labels_for(lname, n)
+    for what, after in mutation_histories(ds0):
+        for s in HIST_SCHEMES:
+            def warm(dd):
+                _lib['OP'].parfront_partition(dd, mk_scheme(s))
+                _lib['OP'].parcons_partition(dd, mk_scheme(s))
+            d = prepare_mutated(ds0, labels, what, warm=warm)
+            check_partition(ctx, after, lname, n, s, dataset_obj=d, origin=[ds0, what])
+            ctx.count('partitions_after_partition_mutate_on_the_same_object')
+
+
 def run_partition(ctx, sh):
     for index, ds in spaces.ds_iter_strided(sh['n'], sh['m'], sh['shard'], sh['nshards']):
         ctx.cases += 1
         for s in cross.SCHEME_KINDS[sh['schemes']]:
             check_partition(ctx, ds, sh['labels'], sh['n'], s)
+        if sh.get('histories'):
+            histories(ctx, ds, sh['labels'], sh['n'])
     ctx.sample({'kind': 'partition', 'block': [sh['n'], sh['m']], 'labels': sh['labels'], 'schemes': sh['schemes']})
 
 
@@ -205,7 +226,14 @@ def run_shard(sh):
 
 
 def replay(ctx, c):
-    if c['kind'] == 'partition':
+    if c['kind'] == 'partition' and c.get('mutated_in_place_from'):
+        global HIST_SCHEMES
+        saved, HIST_SCHEMES = HIST_SCHEMES, [scheme_of(c['scheme'])]
+        try:
+            histories(ctx, tt(c['mutated_in_place_from'][0]), c['labels'], c['n'])
+        finally:
+            HIST_SCHEMES = saved
+    elif c['kind'] == 'partition':
         check_partition(ctx, tt(c['dataset']), c['labels'], c['n'], scheme_of(c['scheme']))
     else:
         P, cc = tt(c['partition']), tt(c['consensus'])
